@@ -76,5 +76,27 @@ claim(
     "Silence after arbitrary compatible edit scripts is not decided.",
     TB,
 )
+claim(
+    "C02",
+    "finite-domain abstract evaluation of get_parameters' AST on the real ast.arguments of every parameter-list shape (756 quick / 5k "
+    "thorough), compared with CPython's introspection of the same text; def-use agreement of the two consumers; typestate of the "
+    "overload / setter / deleter paths on the CFG; kind-map bijection",
+    "The alignment of names, kinds, annotations and defaults is decided for every parameter-list shape with up to two (thorough: three) "
+    "parameters per group, every default pattern and both variadics - any equivalent rewrite of the alignment code passes, any misaligned "
+    "shape is the witness. Consumers use the producer's slots; overloads are appended in order and never set as members; setters and "
+    "deleters attach to the existing property. Expression equality of annotations/defaults is C03's.",
+    TB + "; CPython's inspect.signature on a function compiled from the shape text is the reference",
+)
+claim(
+    "C05",
+    "finite-domain abstract evaluation (wildcard exposure table, overwrite/add conditions, import binding), table agreement (Alias proxy "
+    "completeness and same-name forwarding, __all__ extraction table), must-pass-through on the CFG (sub-module recursion, recursion before "
+    "read, import-map write before alias placement, self-alias guard dominance)",
+    "Decided on every path / abstract state: what `from m import *` exposes, later-wins ordering of expanded wildcards, that every public "
+    "member of the object classes is proxied by Alias to the same-named attribute of the target with members re-parented to the alias, how "
+    "__all__ is collected and expanded (every path reaches the sub-modules), and how import statements bind names. Equality with CPython's "
+    "import of generated packages is not decided.",
+    TB,
+)
 for _p in [f"C{n:02d}" for n in range(1, 20) if f"C{n:02d}" not in CLAIMED]:
     NOT_YET[_p] = "check under construction in this round (static rules designed in DESIGN.md section 3; not yet registered)"
